@@ -33,6 +33,16 @@ CHECKS.update({
         text="C12_glob / C12_like hold for every pattern and subject with no side condition (after the fix commits for + { } | \\, LIKE '?', and newline); the matcher is proved correct against its denotational semantics; replacement tables, prefix/suffix and is_glob characters are re-extracted from util/glob.rs on every run. The binary is run on file names over the property's alphabet with derived patterns for all eight operators.",
         note="(?i) is ASCII case folding in the model; the regex crate's Unicode simple case folding and regex syntax outside the modelled subset are not covered (patterns outside the subset are counted and skipped). Trusted: Coq kernel, rs2v, lexer quoted-string rule (C11).",
         design="6 C12"),
+    "C09": dict(
+        technique="Coq round-trip proofs (emit then decode = identity) for JSON, CSV, HTML and the flat formats over emitters whose literals are regenerated from src/output/*.rs + byte-exact differential test of the binary and of ResultsWriter",
+        text="C09_json_roundtrip / C09_csv_roundtrip / C09_html_roundtrip / C09_*_roundtrip / C09_formats_agree hold for every table and every value (any code points); decoders are independent Gallina readers (RFC 8259 subset, RFC 4180, the table skeleton with entity unescaping). On every run the binary's six formats over five result paths on adversarial file names are decoded by those decoders, compared with `into list`, and compared byte for byte with the model's emitters.",
+        note="serde_json escaping and csv-core quoting are transcribed (validated on every run); values are valid UTF-8. Duplicate select-list keys collapse in JSON (BTreeMap) and are outside the generated queries. Trusted: Coq kernel, rs2v, Python byte/code-point conversion.",
+        design="6 C09"),
+    "C13": dict(
+        technique="Coq proofs over the regenerated DateTime comparison table (interval semantics, trichotomy), a model of parse_datetime with interval theorems for all valid dates, and a calendar proved correct for all of Z + differential test on an mtime grid",
+        text="C13_comparisons shows the table extracted from Searcher::conforms equals closed-interval semantics for all eight operators; C13_trichotomy and companions are proved for all t; literal-to-interval theorems hold for every valid date at four precisions and both separators; the calendar round trips hold for every day number. On every run files with mtimes at a-1, a, a+1, b-1, b, b+1 around each literal are queried with all eight operators.",
+        note="Fixed UTC offset (TZ=UTC); tz database, DST and chrono_english free-form dates are outside the model. The clock is read by the check and passed to the model. Trusted: Coq kernel, rs2v, os.utime/os.lstat.",
+        design="6 C13"),
 })
 
 ALL = ["C%02d" % i for i in range(1, 21)]
